@@ -29,13 +29,18 @@ Record bfixes := mkBF {
                             STEP, limit - a function scope of the step was stored before those of the limit (class B5) *)
   bf_multi_local : bool; (* C07-multi-local-order: cgLocalVarDeclStat analyses ALL initialisers, then adds the names;
                             before: name i was added right after initialiser i (class B3 / multi_local_order) *)
-  bf_own_init : bool     (* C05-own-initialiser: IsCorrectPosition hides a local from every use inside the initialiser
+  bf_own_init : bool;    (* C05-own-initialiser: IsCorrectPosition hides a local from every use inside the initialiser
                             list of its own statement (VarInfo.InitLoc); before: only when the initialiser was a plain
                             name / call / function expression containing the use (class B1) *)
+  bf_surplus : bool      (* C20-local-surplus: cgLocalVarDeclStat analyses EVERY initialiser of `local a = 1, 2, 3, 4`
+                            (`continue`); before: the loop ended (`break`) after the first initialiser beyond the
+                            names, the later ones were never visited by any pass (class unvisited_local_surplus) *)
 }.
-Definition no_fixes : bfixes := mkBF false false false false false.
-Definition all_fixes : bfixes := mkBF true true true true true.
-Definition deployed : bfixes := mkBF true true true true true.
+Definition no_fixes : bfixes := mkBF false false false false false false.
+Definition all_fixes : bfixes := mkBF true true true true true true.
+Definition deployed : bfixes := mkBF true true true true true true.
+(* the code of /repo before fixes/C20-local-surplus.diff (every other repair in) *)
+Definition before_surplus : bfixes := mkBF true true true true true false.
 
 (* ------------------------------------------------------------------ Location predicates (lexer/common.go) *)
 Definition loc_eqb (a b : loc) : bool :=                      (* CompareTwoLoc *)
@@ -256,9 +261,10 @@ Definition assign_name (flv slv : Z) (n : list N) (l : loc) (eo : option exp) (s
 Definition apply_all {A} (fs : list (A -> A)) (a : A) : A := fold_left (fun x f => f x) fs a.
 
 (* cgLocalVarDeclStat BEFORE fixes/C07-multi-local-order.diff (kept for the `_fx` variants): expression i is visited,
-   then name i is added; an expression beyond the names is visited once and ends the loop; names beyond the
+   then name i is added; an expression beyond the names is visited once and ends the loop (sur = false; with
+   fixes/C20-local-surplus.diff, sur = true, the expressions behind it are visited too); names beyond the
    expressions get no value (or the trailing call) *)
-Fixpoint local_loop_old (vis : list (exp * (tstate -> tstate))) (ns : list (list N * loc)) (lastcall : refexp)
+Fixpoint local_loop_old (sur : bool) (vis : list (exp * (tstate -> tstate))) (ns : list (list N * loc)) (lastcall : refexp)
          (st : tstate) : tstate :=
 
   match vis with
@@ -268,15 +274,15 @@ Fixpoint local_loop_old (vis : list (exp * (tstate -> tstate))) (ns : list (list
   | (e, f) :: vis' =>
     let st1 := f st in
     match ns with
-    | [] => st1
+    | [] => if sur then apply_all (map snd vis') st1 else st1
     | (n, nl) :: ns' =>
       let st2 := add_var (mkV n nl (ref_of_exp e) (refer_empty n e)) st1 in
-      local_loop_old vis' ns' (match e with ECall _ _ _ _ => ref_of_exp e | _ => RNone end) st2
+      local_loop_old sur vis' ns' (match e with ECall _ _ _ _ => ref_of_exp e | _ => RNone end) st2
     end
   end.
 
 (* cgLocalVarDeclStat now: ALL the expressions are visited first (as Lua evaluates them: none sees a name of the
-   statement; one expression beyond the names is still visited, it ends the first loop), then name i is added with
+   statement; the expressions beyond the names included, fixes/C20-local-surplus.diff), then name i is added with
    expression i as its ReferExp; names beyond the expressions get no value (or the trailing call) *)
 (* il = VarInfo.InitLoc of every variable of the statement (fixes/C05-own-initialiser.diff; None before it) *)
 Fixpoint local_adds (es : list exp) (ns : list (list N * loc)) (lastcall : refexp) (il : option loc) (st : tstate)
@@ -311,7 +317,13 @@ Fixpoint local_vars (es : list exp) (nls : list (list N * loc)) (lastcall : refe
 
 Definition local_loop (vis : list (exp * (tstate -> tstate))) (ns : list (list N * loc)) (lastcall : refexp)
            (il : option loc) (st : tstate) : tstate :=
-  local_adds (map fst vis) ns lastcall il (apply_all (map snd (firstn (S (length ns)) vis)) st).
+  local_adds (map fst vis) ns lastcall il (apply_all (map snd vis) st).
+
+(* the same before fixes/C20-local-surplus.diff (sur = false): only ONE expression beyond the names was visited (`break`) *)
+Definition local_loop_fx (sur : bool) (vis : list (exp * (tstate -> tstate))) (ns : list (list N * loc)) (lastcall : refexp)
+           (il : option loc) (st : tstate) : tstate :=
+  local_adds (map fst vis) ns lastcall il
+             (apply_all (map snd (if sur then vis else firstn (S (length ns)) vis)) st).
 
 (* cgLocalVarDeclStat: initLoc = from behind the last declared name to the end of the statement, when there are
    initialisers *)
@@ -453,9 +465,9 @@ with tr_stat_fx (flv slv : Z) (s : stat) (st : tstate) {struct s} : tstate :=
                 (map (fun e => (e, tr_exp_fx flv e)) es) st
   | SLocal ns ls _ es l =>
     if bf_multi_local fx then
-      local_loop (map (fun e => (e, tr_exp_fx flv e)) es) (combine ns ls) RNone
+      local_loop_fx (bf_surplus fx) (map (fun e => (e, tr_exp_fx flv e)) es) (combine ns ls) RNone
                  (if bf_own_init fx then init_loc ns ls es l else None) st
-    else local_loop_old (map (fun e => (e, tr_exp_fx flv e)) es) (combine ns ls) RNone st
+    else local_loop_old (bf_surplus fx) (map (fun e => (e, tr_exp_fx flv e)) es) (combine ns ls) RNone st
   | SLocalFunc n nl f _ => tr_exp_fx flv f (add_var (mkV n nl (ref_of_exp f) false) st)
   end
 with tr_block_fx (flv slv : Z) (b : block) (st : tstate) {struct b} : tstate :=
